@@ -8,8 +8,9 @@ import sys
 import time
 
 ROOT = os.path.dirname(os.path.dirname(os.path.abspath(__file__)))
-EVIDENCE = os.path.join(ROOT, "evidence")
-REPLAYS = os.path.join(ROOT, "replays")
+_ALT = os.environ.get("VERIF_REPO", "/repo") != "/repo"  # runs against a scratch copy never touch the real evidence
+EVIDENCE = os.environ.get("VERIF_EVIDENCE_DIR") or os.path.join(ROOT, "build/alt-evidence" if _ALT else "evidence")
+REPLAYS = os.path.join(ROOT, "build/alt-replays" if _ALT else "replays")
 KNOWN = os.path.join(ROOT, "known_findings.json")
 
 
